@@ -1,9 +1,32 @@
 //! Small deterministic PRNG (splitmix64 seeding + xoshiro256**), so every harness-side random
 //! choice is reproducible from VERIF_SEED / shard / case index. No external crate needed.
 
+use std::cell::RefCell;
+use std::sync::Arc;
+
 #[derive(Clone, Debug)]
 pub struct Rng {
     s: [u64; 4],
+    /// decision tape (fuzz mode): the first draws are read from it, 8 bytes each
+    tape: Option<Arc<Vec<u8>>>,
+    pos: usize,
+    mix: u64,
+}
+
+thread_local! {
+    static TAPE: RefCell<Option<Arc<Vec<u8>>>> = RefCell::new(None);
+}
+
+/// Fuzz mode: while a tape is set on this thread, every `Rng` created here reads its first
+/// draws from the tape (from offset 0, xor a constant derived from the stream's seed, so that the
+/// same seed replays the same stream and different streams are decorrelated) and continues with
+/// the ordinary generator seeded from seed and tape contents once the tape is used up. A
+/// coverage-guided fuzzer mutating the tape thereby mutates the decisions of every generator.
+pub fn set_tape(t: Option<Vec<u8>>) {
+    TAPE.with(|c| *c.borrow_mut() = t.map(Arc::new));
+}
+pub fn tape_active() -> bool {
+    TAPE.with(|c| c.borrow().is_some())
 }
 
 fn splitmix(x: &mut u64) -> u64 {
@@ -16,9 +39,21 @@ fn splitmix(x: &mut u64) -> u64 {
 
 impl Rng {
     pub fn new(seed: u64) -> Self {
+        let tape = TAPE.with(|c| c.borrow().clone());
         let mut x = seed ^ 0xD1B54A32D192ED03;
+        let mut mix = 0;
+        if let Some(t) = &tape {
+            let mut h: u64 = 0xcbf29ce484222325;
+            for b in t.iter() {
+                h ^= *b as u64;
+                h = h.wrapping_mul(0x100000001b3);
+            }
+            let mut m = seed;
+            mix = splitmix(&mut m);
+            x ^= h;
+        }
         let s = [splitmix(&mut x), splitmix(&mut x), splitmix(&mut x), splitmix(&mut x)];
-        Rng { s }
+        Rng { s, tape, pos: 0, mix }
     }
     /// Derive an independent stream (e.g. per case) from a base seed and several labels.
     pub fn derive(seed: u64, labels: &[u64]) -> Self {
@@ -29,6 +64,14 @@ impl Rng {
         Rng::new(x)
     }
     pub fn next_u64(&mut self) -> u64 {
+        if let Some(t) = &self.tape {
+            if self.pos + 8 <= t.len() {
+                let mut b = [0u8; 8];
+                b.copy_from_slice(&t[self.pos..self.pos + 8]);
+                self.pos += 8;
+                return u64::from_le_bytes(b) ^ self.mix;
+            }
+        }
         let r = self.s[1].wrapping_mul(5).rotate_left(7).wrapping_mul(9);
         let t = self.s[1] << 17;
         self.s[2] ^= self.s[0];
